@@ -18,7 +18,7 @@ CLAIMED['C14'] = {
     'engines': 'ZX',
     'technique': 'symbolic execution of the real compare_version / Timeframe code and of the availability filter of get_recommendations over version strings with symbolic digits (regex model), oracle = component-wise numeric order',
     'text': 'For all version strings of the listed shapes (components x digits, every digit value) and each product, z3 shows that the verdict equals the '
-            'component-wise numeric order, is antisymmetric and transitive, that the compatibility time frame takes numeric min/max, and that the real recommendation pass treats a synthetic row as available exactly when server version >= first version.',
+            'component-wise numeric order, is antisymmetric and transitive, that the compatibility time frame takes numeric min/max, and that the real recommendation pass treats a synthetic row as available exactly when server version >= first version. The same availability verdict holds when the version is identified from the banner text and when another server of the product was assessed just before; one-digit versions with patch suffixes are ordered numerically.',
     'note': 'Bounded by version shapes in props/c14.py; regex engine replaced by a backtracking model validated per path; leading zeros and non-numeric versions outside.',
 }
 CLAIMED['C16'] = {
@@ -26,7 +26,7 @@ CLAIMED['C16'] = {
     'technique': 'symbolic execution of Banner.parse / get_banner / Software.parse over strings and byte streams with symbolic characters (regex model), all paths per shape',
     'text': 'For every banner line generated from the grammar within the length bounds (all printable characters), every arbitrary string of <=3..4 code points, '
             'every header/banner stream of the listed shapes and chunkings, the solver shows acceptance, exact part recovery, round-trip stability, '
-            'sanitising, header separation (also through the whole audit() with reconnecting probes) and product/version extraction.',
+            'sanitising, header separation (also through the whole audit() with reconnecting probes) and product/version extraction. The report carries the non-ASCII flag line for protocol 1.5, 1.99 and 2.0 alike; header text is shown in printable ASCII only and never appears in the report of the peer audited next.',
     'note': 'Bounded by shapes in props/c16.py META; socket replaced by scripted chunks; regex/bytearray/io models validated per path.',
 }
 CLAIMED['C09'] = {
@@ -34,7 +34,7 @@ CLAIMED['C09'] = {
     'technique': 'symbolic execution of the real parsers and of the whole audit() against a scripted network whose bytes are solver variables; exception classes leaving each stage compared with what call sites catch',
     'text': 'For every byte string within the bounds at every stage (banner loop, packet reader, KEXINIT/PKM parsers, KEX reply, GEX group, and the real audit() with '
             'arbitrary first-connection bytes, arbitrary probe replies, arbitrary version text after a recognised product name, a KEXINIT cut inside its padding) z3 explores all paths: only documented end states occur, loops consume input '
-            '(recv calls <= chunks+1), malformed handshakes give status 1 without report, probe misbehaviour leaves a complete report.',
+            '(recv calls <= chunks+1), malformed handshakes give status 1 without report, probe misbehaviour leaves a complete report. A KEXINIT lacking its last 1..5 payload bytes is not a handshake; every connection the tool opens starts with a well-framed KEXINIT; a group-exchange modulus above 8192 bits is refused before any exponentiation.',
     'note': 'Bounded stream lengths (props/c09.py META); wall-clock replaced by progress bound + OS timeout contract; randrange/pow/CRC stubs as listed; rate-test phase in C19.',
 }
 
@@ -43,7 +43,7 @@ CLAIMED['C06'] = {
     'technique': 'symbolic execution of the real Policy.evaluate over symbolic policy/peer lists, flags and sizes; equivalence with an independent specification decided by z3',
     'text': 'For all policy/peer lists of 0..3 names (symbolic characters, strict-kex markers placed), both allow_* flags, optional host keys, all sizes of the '
             'listed digit counts and CA type combinations, z3 shows verdict == specification, passed iff no errors, errors name exactly the failing fields '
-            'with expected/actual values, field interactions are conjunctions, and the monotonicity clauses.',
+            'with expected/actual values, field interactions are conjunctions, and the monotonicity clauses. A deep copy of the configuration (as each worker task makes it) evaluates like the original policy; a policy file in the deprecated size-directive format loads and every size comes from its own line.',
     'note': 'Bounded list lengths/name lengths (props/c06.py META); every evaluation starts from an empty error list: checked through two worker tasks sharing one configuration (O10).',
 }
 
@@ -62,7 +62,7 @@ CLAIMED['C03'] = {
     'technique': 'symbolic execution of output_algorithm / build_struct / algorithm_lookup / output() on an arbitrary table row with symbolic notes and on symbolic unknown and gss-* names; three views compared against the row by z3',
     'text': 'For an ARBITRARY row of the documented shape (absent/empty/1-2 notes per level with symbolic texts, eight version forms) z3 shows text notes == JSON notes == '
             'lookup notes == row content (also for a row whose NAME is symbolic over both letter cases, digits and punctuation), table unchanged, independent of padding/batch/verbose/prior status; symbolic unknown names are flagged in text and JSON and never '
-            'rendered good; gss-<base>-<token> uses the wildcard row in text and JSON; a known name keeps its notes at every position among symbolic neighbours in both roles.',
+            'rendered good; gss-<base>-<token> uses the wildcard row in text and JSON; a known name keeps its notes at every position among symbolic neighbours in both roles. A name listed twice gets the row\'s notes on both JSON entries and rendering leaves the table row unchanged; --lookup of an instantiated gss name uses the wildcard row.',
     'note': 'Note texts are 1 symbolic char, names <=3 symbolic chars (props/c03.py META); json.dumps captured, its text rendering trusted; rows of the real table have the quantified shape by C17.',
 }
 CLAIMED['C01'] = {
@@ -80,7 +80,7 @@ CLAIMED['C02'] = {
     'technique': 'symbolic execution of the real output()/audit()/evaluate_policy on severity mixes with symbolic unknown names, symbolic output options, scripted broken handshakes and a symbolic policy',
     'text': 'For every ordering of failure/warning/clean/unknown algorithms within the bounds and all output options z3 shows status == fold of the rendered severities and '
             'independence from batch/verbose/JSON/level; seventeen broken-handshake stages give status 1 and no report (no JSON document listing algorithms) in single and target-list mode; policy mode maps verdict to 0/3; '
-            'the status also counts the failure/warning lines of the general section (SSH-1 reports, 1.99 banners, non-ASCII banners).',
+            'the status also counts the failure/warning lines of the general section (SSH-1 reports, 1.99 banners, non-ASCII banners). The status equals the fold of every failure/warning-level line of the report, also in the presence of a 1.99 banner together with a non-ASCII banner or the -2 option.',
     'note': 'Severity classes are recomputed from the current table; unknown names are 2 symbolic chars; socket and json.dumps stubbed; C09 covers further malformed input.',
 }
 CLAIMED['C15'] = {
@@ -100,7 +100,7 @@ CLAIMED['C04'] = {
     'technique': 'symbolic execution of the real post_process_findings and output() on cipher/MAC lists instantiated with table names and symbolic tokens of vulnerable and near-miss shape; table diff against the pristine master table; oracle = published boolean rule',
     'text': 'For role x marker x cipher forms x MAC forms within the bounds z3 shows: without the role\'s marker exactly the ChaCha20 / (CBC and EtM) table names get exactly one '
             'Terrapin warning and no other row of any category changes; with the marker no row changes and one advisory names exactly those algorithms; disabled class members '
-            'are suppressed and never recommended; text and JSON show the note on exactly those names, in server and client audits; the advisory note is shown also for a peer without other findings.',
+            'are suppressed and never recommended; text and JSON show the note on exactly those names, in server and client audits; the advisory note is shown also for a peer without other findings. A name listed twice carries the warning once and is named once in the advisory note.',
     'note': 'Token alphabet [a-z0-9-@], one symbolic token per name; decoy lists on the other direction make role confusion visible; decoys sit on the unreported (client-to-server) direction in both roles; known finding: unknown names of vulnerable shape cannot carry the note.',
 }
 
@@ -109,7 +109,7 @@ CLAIMED['C13'] = {
     'technique': 'symbolic execution of the real report (output -> post-processing -> get_recommendations) for banners with symbolic version digits; the recommendation set is compared clause by clause with the ratings shown in the same document; availability oracle = numeric version comparison',
     'text': 'For every version of the listed shapes of each recognised product (and unrecognised/no software), four advertised server sets plus a symbolic unknown cipher, z3 explores '
             'all version-dependent paths of the real pass over the whole current table: removals are advertised and rated; rated-and-known algorithms are recommended for removal; '
-            'critical iff failure; additions are clean, unadvertised, not cert/sk/pseudo and available; nothing twice; no additions for unrecognised software.',
+            'critical iff failure; additions are clean, unadvertised, not cert/sk/pseudo and available; nothing twice; no additions for unrecognised software. SSH-1 reports (all 128 cipher masks): every rated cipher known for servers is recommended for removal and nothing else is.',
     'note': 'Advertised sets are concrete (4 sets), versions symbolic; relies on C14 (order) and C03 (ratings == rows); <10 warnings per row checked over the table.',
 }
 
@@ -127,7 +127,7 @@ CLAIMED['C18'] = {
     'technique': 'symbolic execution of parse_host_and_port, process_commandline (argparse stubbed, option values symbolic), SSH_Socket._resolve/connect under an arbitrary resolver answer, and the target labels',
     'text': 'For every spelling within the bounds (symbolic host characters, IPv6-like groups, port digits) z3 shows the parsed pair equals the spelling\'s meaning; command line and '
             'targets file yield exactly those pairs, ports outside 1..65535 are rejected before any socket exists; for every resolver answer of <=3 entries and every preference '
-            'only requested families are dialled, in order, with exactly (host, port); text and JSON labels denote the same pair; the real main() resolves and dials, in target order, exactly the targets as written (command line incl. -p with host:port / [IPv6], targets files mixing line forms); a port outside 1..65535 in any line is rejected before any connection; a listed SSH-1-only target keeps its label.',
+            'only requested families are dialled, in order, with exactly (host, port); text and JSON labels denote the same pair; the real main() resolves and dials, in target order, exactly the targets as written (command line incl. -p with host:port / [IPv6], targets files mixing line forms); a port outside 1..65535 in any line is rejected before any connection; a listed SSH-1-only target keeps its label. The connection-rate phase picks the address the scan itself would dial first for every preference setting.',
     'note': 'argparse replaced by a stub returning the declared options; OS resolver replaced by FakeNet; label obligation uses 4 concrete host classes; O5 runs the real main() from the (stubbed) option namespace to the dialled endpoint.',
 }
 
@@ -136,7 +136,7 @@ CLAIMED['C11'] = {
     'technique': 'symbolic execution of KexDH.recv_reply on well-formed replies with symbolic field contents, of HostKeyTest.perform_test with symbolic measured sizes, and of the reporting code; SMT-LIB translation of __adjust_key_size (unbounded)',
     'text': 'For every content of well-formed replies of the listed layouts/lengths the recorded key size, CA type and CA size equal the presented ones and the blob is returned '
             'unchanged; __adjust_key_size is proved for every byte length; for all measured sizes of the listed digit counts the table edits equal the 2048/3072 (224/256 ECC) '
-            'threshold rule on every RSA-family member and no other row; suffixes, JSON fields and fingerprint entry rules match.',
+            'threshold rule on every RSA-family member and no other row; suffixes, JSON fields and fingerprint entry rules match. Through the whole audit() with an answered probe the JSON document reports the key size on every advertised RSA name, one ssh-rsa fingerprint pair equal to hashlib\'s fingerprints of the presented blob, and the threshold notes.',
     'note': 'Field lengths from a shape list (moduli 65..513 bytes quick); stub socket/key-exchange objects in perform_test; hashlib trusted (concrete blobs); off-grid moduli outside.',
 }
 CLAIMED['C12'] = {
@@ -144,7 +144,7 @@ CLAIMED['C12'] = {
     'technique': 'symbolic execution of the real GEXTest.run against a server model whose moduli set is a symbolic 9-bit have-set (four selection styles), of send_init_gex/get_dh_modulus_size on moduli of exact bit length, and of the OpenSSH-2048 post-processing',
     'text': 'For ALL 512 subsets of the nine standard sizes x 4 monotone selection styles (strict, round-up, OpenSSH fallback, nearest-size with out-of-range replies) x sha1/sha256 x OpenSSH/other: recorded size == smallest modulus handed out over the fixed '
             'probe sequence (OpenSSH 2048: the follow-up reply plus note), failure < 2048, warning 2048..3071, nothing from 3072, sha1 keeps a failure, <= 9 probes, no other row '
-            'touched; measured size == bit length for all moduli of the listed bit lengths; note/suppression iff OpenSSH and 2048 and sha256 advertised; with the real _send_init and group object an answered request reports the size and a following unanswered one reports none.',
+            'touched; measured size == bit length for all moduli of the listed bit lengths; note/suppression iff OpenSSH and 2048 and sha256 advertised; with the real _send_init and group object an answered request reports the size and a following unanswered one reports none. MSG_DEBUG followed by a refusal yields no size; unpadded moduli with the top bit set are measured as unsigned numbers.',
     'note': 'the DH group object (and in the Loop variant GEXTest._send_init) replaced by the symbolic server model, LoopReal runs the real _send_init/reconnect; non-monotone servers outside (property quantifies over monotone policies); randrange/pow stubbed.',
 }
 
@@ -155,7 +155,7 @@ CLAIMED['C19'] = {
             'request per connection; GEX phase <= 9 connections per algorithm, one request each, all closed; audit() runs the rate check exactly when not skipped with limits '
             '(1.5 s, 38, 3), never the DoS features, closes every socket and retries over SSH-1 at most once whatever each connection answers; the rate-check loop under a symbolic clock keeps concurrent sockets <= limit, attempts <= max + '
             'concurrent, closes everything and terminates; at the SHIPPED limits (1.5 s, 38, 3) the same follows for runs of any length from solver-checked inductive steps of the three loops of _dh_rate_test '
-            '(invariant: attempts <= 38, tracked <= 3, opened + tracked <= attempts, open == tracked; progress in a well-founded order).',
+            '(invariant: attempts <= 38, tracked <= 3, opened + tracked <= attempts, open == tracked; progress in a well-founded order). For every combination of the ordinary options the DoS / flood features stay off and --skip-rate-test reaches the per-target configuration.',
     'note': 'Whole runs of the rate loop are explored for small parameter values (max 1..2, concurrent 1..2, 0.2 s) and <= 8 select rounds; the shipped parameters are covered by the inductive steps (composition is a paper argument, base case syntactic); select contract: an empty result blocked for the timeout; probe sockets/key-exchange groups are stubs.',
 }
 
@@ -164,7 +164,7 @@ CLAIMED['C07'] = {
     'technique': 'reduction of the schedule quantifier to two solver-checked lemmas over the real code: a footprint lemma (recording map, symbolic presence pattern of three thread ids) and an inductive worker step on a reused thread (archetype pairs incl. a status-0 target and answered host-key / group-exchange probes, with a symbolic name riding along), plus configuration isolation and the real main() target loop',
     'text': 'Footprint: every table access of get_db/thread_exit and of all six in-place editors uses only the calling thread\'s key, other threads\' tables unchanged, for every '
             'presence pattern. Step: a worker task that follows any archetype on the same thread renders the next target exactly as a fresh run (status, text, JSON) and leaves no '
-            'table behind. Config: a shared policy/configuration is untouched by tasks. Disjoint keys + GIL-atomic dict operations => interleavings commute to sequential histories.',
+            'table behind. Config: a shared policy/configuration is untouched by tasks. Disjoint keys + GIL-atomic dict operations => interleavings commute to sequential histories. After a task every process-wide container of the tool equals a fresh process\'s state (state diff), the task\'s configuration equals the shared configuration in every setting, and the reference run of the step is made after a full reset so that no cache can hide a stale entry.',
     'note': 'Real thread scheduling is NOT executed; the commutation argument is reasoning by reading, stated in DESIGN.md; socket/json/get_ident stubbed; three archetypes.',
 }
 CLAIMED['C08'] = {
